@@ -56,7 +56,12 @@ package decoration
 //@   assigns new(string)
 //@   ensures [boxless-emits-no-rules] e.decor.isBoxless ==> result == "" @C03
 //@   loop#1 invariant -1 <= rangeindex && rangeindex < len(e.colWidths) && len(fields) == 1 + 2 * (rangeindex + 1) && cap(fields) >= 2 * len(e.colWidths) + 2 && fresh(fields)
+//@   loop#1 invariant fields[0] == left
+//@   loop#1 invariant [segments-so-far] forall k int :: {e.colWidths[k]} 0 <= k && k <= rangeindex ==> fields[1 + 2 * k] == repeat(horiz, 2 + e.colWidths[k])
+//@   loop#1 invariant [crossings-so-far] forall m int :: {fields[m]} 2 <= m && m < len(fields) && m % 2 == 0 ==> fields[m] == cross
 //@   loop#1 decreases len(e.colWidths) - rangeindex
+//@   call Join#1 before assert [rule-segment-spans-column-plus-one-space-either-side] forall k int :: {e.colWidths[k]} 0 <= k && k < len(e.colWidths) ==> fields[1 + 2 * k] == repeat(horiz, 2 + e.colWidths[k]) @C03
+//@   call Join#1 before assert [rule-corners-and-crossings] fields[0] == left && len(fields) == 2 * len(e.colWidths) + (len(e.colWidths) > 0 ? 2 : 3) && fields[len(fields) - 1] == e.eol && (len(e.colWidths) > 0 ==> fields[len(fields) - 2] == right) && (forall m int :: {fields[m]} 2 <= m && m < 2 * len(e.colWidths) && m % 2 == 0 ==> fields[m] == cross) @C03
 
 //@ -- dividersOK(ds, n): the trailing inner divider that the right divider replaces exists
 //@ pred dividersOK(ds DividerSet, n int) = ds.Right != "" && ds.Inner != "" ==> ds.Left != "" || n > 0
